@@ -98,3 +98,37 @@ theorem init_progOf (x0 : σ) (progs : List (List (Seg σ))) (t : Nat) :
   simp [progOf, init]
 
 end Verif.Mutex
+
+namespace Verif.Mutex
+variable {σ : Type}
+
+/-- progress: unless every caller has finished and the lock is free, some caller can take a step
+that changes the lock state — callers of a lock-disciplined object cannot deadlock on its lock -/
+theorem progress (s : Sys σ) (h : quiescent s = false) : ∃ t, (step s t).hold ≠ s.hold := by
+  cases hh : s.hold with
+  | some v =>
+    obtain ⟨hd, ex, rem⟩ := v
+    refine ⟨hd, ?_⟩
+    cases rem with
+    | nil => simp [step, hh]
+    | cons a as =>
+      simp only [step, hh, if_true]
+      intro hc
+      have := congrArg (fun o => (o.map (fun x => x.2.2.length)).getD 0) hc
+      simp at this
+  | none =>
+    have hr : s.rest.all (·.isEmpty) = false := by
+      simpa [quiescent, hh] using h
+    have : ∃ l ∈ s.rest, l.isEmpty = false := by
+      simpa [List.all_eq_false] using hr
+    obtain ⟨l, hl, hne⟩ := this
+    obtain ⟨t, ht, hget⟩ := List.getElem_of_mem hl
+    refine ⟨t, ?_⟩
+    cases l with
+    | nil => simp at hne
+    | cons seg more =>
+      have hq : s.rest[t]? = some (seg :: more) := by
+        rw [List.getElem?_eq_getElem ht, hget]
+      simp [step, hh, hq]
+
+end Verif.Mutex
